@@ -692,11 +692,11 @@ func (h *nxHS) runCase(c nxCase) {
 	if atomic.LoadInt32(&h.unserved) >= 3 {
 		wait = 500 * time.Millisecond
 	}
-	deadline := time.After(wait)
+	deadline := time.Now().Add(wait)
 	for _, ch := range []chan struct{}{w.hpre, w.hpost} {
 		select {
 		case <-ch:
-		case <-deadline:
+		case <-time.After(time.Until(deadline)):
 			served = false
 		}
 	}
